@@ -1,6 +1,7 @@
 -- DRIVER-PROPS: C08
 /- history-mode handler for C08: leveragelp pool / position / committed-share books and the open counter. -/
 import ElysModel.Drv.Hist
+import ElysModel.Ids.Model
 import ElysModel.Ledger.LevLp
 open Lean
 namespace Elys.Drv.LevLpH
@@ -79,7 +80,11 @@ def handle (s : S) (i : Nat) (j : Json) : S × List Json :=
       (match ps.find? (fun p => m1.poolLev.get p != o.poolLev.get p) with
        | some p => [verdictDiff i "pool.leveragedLp" (Json.mkObj [("pool", p), ("val", mkInt (m1.poolLev.get p))]) (Json.mkObj [("val", mkInt (o.poolLev.get p))])]
        | none => []) ++
-      (if m1.count != o.count then [verdictDiff i "openPositionCount" (mkInt m1.count) (mkInt o.count)] else [])
+      (if m1.count != o.count then [verdictDiff i "openPositionCount" (mkInt m1.count) (mkInt o.count)] else []) ++
+      -- the id model's invariant on the observed state: no stored position's id is above the counter (C08.ids_never_reused)
+      (if !Ids.boundedLastB st.obs.levIdCount (st.obs.levPositions.map (·.id)) then
+        [verdictDiff i "positionIdCounter" (Json.mkObj [("invariant", "every stored id <= counter")])
+          (Json.mkObj [("counter", Json.num st.obs.levIdCount), ("ids", Json.arr ((st.obs.levPositions.map (fun p => Json.num p.id)).toArray))])] else [])
     let viols :=
       (match ps.find? (fun p => !poolEqSumB o p) with
        | some p => [verdictViol i "C08.pool_eq_sum" (Json.mkObj [("pool", p), ("poolLeveragedLp", mkInt (o.poolLev.get p)), ("sumOfPositions", mkInt (sumPos o p))])]
